@@ -37,6 +37,7 @@ def instances(tier):
     # AT5 zone set-points beyond what the protocol field can carry (10.0 .. 35.0 degC): whatever the client does with such a
     # request, it must not transmit a frame that means a different temperature
     out.append({"gen": 5, "call": "zone_temp", "vary": "beyond_field"})
+    out.append({"gen": 4, "call": "zone_temp", "vary": "beyond_field"})
     if tier == "thorough":
         have = {(q["gen"], q["call"], q["vary"]) for q in out}
         for g in (4, 5):
@@ -126,7 +127,10 @@ def scenario(ctx, p):
     elif call == "zone_temp":
         # zone set-points have no advertised limits: the admissible domain is what the protocol field can carry
         D = p.get("grid", 20)
-        if vary == "beyond_field":
+        if vary == "beyond_field" and g.n == 4:
+            j = ctx.int("j", -20 * D, 300 * D)          # AT4: the field is one byte of whole degrees
+            ctx.assume(sym_or(j < -1 * D, j > 256 * D))
+        elif vary == "beyond_field":
             j = ctx.int("j", 0, 60 * D)
             ctx.assume(sym_or(j < 10 * D, j > 35 * D))
         else:
